@@ -71,6 +71,8 @@ impl Generator {
         for mutator in &self.mutators {
             if let Some(mutated) = mutator.mutate_int(result, source, self.mutation_rate) {
                 result = mutated;
+                #[cfg(feature = "verif-hooks")]
+                super::verif::mutated();
                 break; // Apply only one mutation
             }
         }
@@ -98,6 +100,8 @@ impl Generator {
         for mutator in &self.mutators {
             if let Some(mutated) = mutator.mutate_long(result, source, self.mutation_rate) {
                 result = mutated;
+                #[cfg(feature = "verif-hooks")]
+                super::verif::mutated();
                 break;
             }
         }
@@ -124,6 +128,8 @@ impl Generator {
         for mutator in &self.mutators {
             if let Some(mutated) = mutator.mutate_float(result, source, self.mutation_rate) {
                 result = mutated;
+                #[cfg(feature = "verif-hooks")]
+                super::verif::mutated();
                 break;
             }
         }
@@ -152,6 +158,8 @@ impl Generator {
             if let Some(mutated) = mutator.mutate_string(result.clone(), source, self.mutation_rate)
             {
                 result = mutated;
+                #[cfg(feature = "verif-hooks")]
+                super::verif::mutated();
                 break;
             }
         }
@@ -180,6 +188,8 @@ impl Generator {
             if let Some(mutated) = mutator.mutate_bytes(result.clone(), source, self.mutation_rate)
             {
                 result = mutated;
+                #[cfg(feature = "verif-hooks")]
+                super::verif::mutated();
                 break;
             }
         }
@@ -207,6 +217,8 @@ impl Generator {
         for mutator in &self.mutators {
             if let Some(mutated) = mutator.mutate_memo_index(result, source, self.mutation_rate) {
                 result = mutated;
+                #[cfg(feature = "verif-hooks")]
+                super::verif::mutated();
                 break;
             }
         }
@@ -274,9 +286,13 @@ impl Generator {
             snapshot.memo_delta.push(idx);
         }
 
+        #[cfg(feature = "verif-hooks")]
+        let verif_before = self.output.clone();
         // Let each mutator post-process
         for mutator in &self.mutators {
             mutator.post_process(&snapshot, &mut self.output, source, self.mutation_rate);
         }
+        #[cfg(feature = "verif-hooks")]
+        super::verif::rewritten(verif_before != self.output);
     }
 }
